@@ -20,16 +20,32 @@ def parseDBRPs (tok : String) : Option (List (String × String)) :=
     | [a, b] => do pure ((← unesc a), (← unesc b))
     | _ => none)
 
+/-- The from() options the letters of the harness stand for (harness/c02 `optsOf`; a later groupBy call REPLACES the dimensions). -/
+def parseOpts (tok : String) : Option FromOpts :=
+  if tok == "-" then some {} else
+  tok.toList.foldlM (fun (o : FromOpts) c =>
+    match c with
+    | 'g' => some { o with dims := ["host"], star := false }
+    | 'G' => some { o with dims := ["zone", "host"], star := false }
+    | 'D' => some { o with dims := ["host", "dc", "host"], star := false }
+    | 'a' => some { o with dims := [], star := true }
+    | 'm' => some { o with byName := true }
+    | 't' => some { o with truncate := 1000000000 }
+    | 'T' => some { o with truncate := 7000000000 }
+    | 'n' => some { o with truncate := -1000000000 }
+    | 'r' => some { o with round := 1000000000 }
+    | 'R' => some { o with round := 7000000000 }
+    | _ => none) {}
+
 def parseFrom (tok : String) : Option From :=
   match splitBar tok with
   | [db, rp, nm, wh] => do
     let w ← if wh == "-" then pure none else (do pure (some (← wh.toNat?)))
     pure { db := (← unesc db), rp := (← unesc rp), name := (← unesc nm), wh := w }
-  | [db, rp, nm, wh, _opts, par] => do
-    -- `_opts` (groupBy / truncate / round) do not take part in the routing; the harness checks them on the recorded points
+  | [db, rp, nm, wh, opts, par] => do
     let w ← if wh == "-" then pure none else (do pure (some (← wh.toNat?)))
     let pa ← if par == "-" then pure none else (do pure (some (← par.toNat?)))
-    pure { db := (← unesc db), rp := (← unesc rp), name := (← unesc nm), wh := w, parent := pa }
+    pure { db := (← unesc db), rp := (← unesc rp), name := (← unesc nm), wh := w, parent := pa, opts := (← parseOpts opts) }
   | _ => none
 
 def parseFroms (tok : String) : Option (List From) := (tok.splitOn ",").mapM parseFrom
@@ -37,22 +53,68 @@ def parseFroms (tok : String) : Option (List From) := (tok.splitOn ",").mapM par
 def parsePass (tok : String) : Option (List Nat) :=
   if tok == "-" then some [] else (tok.splitOn ";").mapM (·.toNat?)
 
+/-- `id|name|pass|v|host|dc|time`: tags host / dc (absent when empty; kept sorted by key), fields id and v, time in Unix ns. -/
 def parsePoint (tok : String) : Option RawPoint :=
   match splitBar tok with
-  | [id, nm, pass, _v, _host] => do pure { id := (← id.toNat?), name := (← unesc nm), pass := (← parsePass pass) }
+  | [id, nm, pass, v, host, dc, t] => do
+    let id ← id.toNat?
+    let host ← unesc host
+    let dc ← unesc dc
+    let tags := (if dc == "" then [] else [("dc", dc)]) ++ (if host == "" then [] else [("host", host)])
+    pure { id := id, name := (← unesc nm), pass := (← parsePass pass),
+           pl := { time := (← t.toInt?), tags := tags, fields := [("id", (id : Int)), ("v", (← v.toInt?))] } }
   | _ => none
 
 def parsePoints (tok : String) : Option (List RawPoint) := (tok.splitOn ",").mapM parsePoint
 
-/-- lines of an HTTP body: `!k` = a malformed line -/
-def parseLines (tok : String) : Option (List (Option RawPoint)) :=
-  (tok.splitOn ",").mapM (fun x => if x.startsWith "!" then some none else (parsePoint x).map some)
+/-- lines of an HTTP body: `!k` = a malformed line, `#k` = a comment / blank line, `<point>@<ts>` = a point with time stamp `ts` -/
+def parseLines (tok : String) : Option (List Line) :=
+  (tok.splitOn ",").mapM (fun x =>
+    if x.startsWith "!" then some Line.bad
+    else if x.startsWith "#" then some Line.skip
+    else match x.splitOn "@" with
+      | [pt, ts] => do pure (Line.point (← parsePoint pt) (← ts.toInt?))
+      | _ => none)
 
-/-- ids a sink recorded (suffixes `!t !d !c` dropped); `none` when a token is not an id -/
-def parseObsIds (toks : List String) : List Nat :=
+def parseEnc (flags : String) : BodyEnc :=
+  let fl := flags.splitOn ","
+  if fl.contains "gzhdr" then .gzipBadHeader else if fl.contains "gztrunc" then .gzipTruncated
+  else if fl.contains "gz" then .gzip else .plain
+
+/-- One recorded point as the harness printed it: (id, the harness' own cross-check flags, `id|name|db|rp|time|byName|dims|tags|fields`). -/
+structure ObsPt where
+  id : String
+  flags : List String
+  text : String
+
+def parseObsPts (toks : List String) : List ObsPt :=
   match toks with
-  | [t] => if t == "-" then [] else (t.splitOn ",").filterMap (fun x => ((x.splitOn "!").headD "").toNat?)
+  | [t] =>
+    if t == "-" then [] else
+    (t.splitOn ",").map (fun x =>
+      let fs := x.splitOn "|"
+      let hd := (fs.headD "").splitOn "!"
+      { id := hd.headD "", flags := hd.drop 1, text := "|".intercalate (hd.headD "" :: fs.drop 1) })
   | _ => []
+
+/-- ids a sink recorded; a token that is not an id is dropped -/
+def parseObsIds (toks : List String) : List Nat := (parseObsPts toks).filterMap (·.id.toNat?)
+
+def renderList (l : List String) : String := if l.isEmpty then "-" else ";".intercalate l
+
+/-- a recorded point in the harness' format (harness/c02 `obsPoint`) -/
+def renderRec (r : Rec) : String :=
+  "|".intercalate [toString r.id, esc r.name, esc r.db, esc r.rp, toString r.time, boolTok r.byName,
+    renderList (r.tagNames.map esc), renderList (r.tags.map (fun kv => esc kv.1 ++ "=" ++ esc kv.2)),
+    renderList (r.fields.map (fun kv => esc kv.1 ++ "=" ++ toString kv.2))]
+
+/-- which part of two renderings differs first -/
+def diffPart (a b : String) : String :=
+  let names := ["id", "name", "db", "rp", "time", "byName", "dimensions", "tags", "fields"]
+  let zs := (a.splitOn "|").zip ((b.splitOn "|").zip names)
+  match zs.find? (fun z => z.1 != z.2.1) with
+  | some z => z.2.2
+  | none => "shape"
 
 /-- One write order for the points of concurrent writers that keeps every writer's own order and agrees with the relative order in
 which every sink recorded them (`none`: there is none — no single order explains what the sinks saw). Kahn's algorithm. -/
@@ -145,6 +207,39 @@ def noteWrite (st : St) (db rp : String) (pts : List RawPoint) : St := Id.run do
           if let some j := f.parent then
             st := addBr st (if sinkGets x.2.task i p then "chained-from-gets"
                             else if sinkGets x.2.task j p then "chained-from-own-reject" else "chained-from-parent-reject")
+          if sinkGets x.2.task i p then
+            -- the from() options at work on a point that is delivered
+            let o := f.opts
+            let tin := match f.parent with
+              | some j => docTime x.2.task.froms (j + 1) j p.pl.time
+              | none => p.pl.time
+            let tt := docTruncate o.truncate tin
+            if o.truncate > 0 then
+              st := addBr st (if tt != tin then "opt-truncate-moves" else "opt-truncate-on-boundary")
+              if tt != tin - tin % o.truncate then st := addBr st "opt-truncate-year1-origin-visible"
+            if o.truncate < 0 then st := addBr st "opt-truncate-negative-noop"
+            if o.round > 0 then
+              let r := (tt + goZero) % o.round
+              st := addBr st (if r == 0 then "opt-round-on-boundary" else if 2 * r == o.round then "opt-round-halfway-up"
+                              else if 2 * r < o.round then "opt-round-down" else "opt-round-up")
+            if o.truncate > 0 && o.round > 0 then st := addBr st "opt-truncate-then-round"
+            if f.parent.isSome && tin != p.pl.time then st := addBr st "opt-chained-from-gets-restamped-time"
+            if o.star then st := addBr st (if p.pl.tags.isEmpty then "opt-groupby-star-no-tags"
+                                           else if p.pl.tags.length ≥ 2 then "opt-groupby-star-2-tags" else "opt-groupby-star-1-tag")
+            if !o.dims.isEmpty then
+              st := addBr st "opt-groupby-names"
+              if docTagNames o p.pl.tags != o.dims then st := addBr st "opt-groupby-names-resorted"
+              if o.dims.eraseDups.length < o.dims.length then st := addBr st "opt-groupby-duplicate-name-kept"
+              if o.dims.any (fun n => !p.pl.tags.any (·.1 == n)) then st := addBr st "opt-groupby-listed-tag-absent-still-listed"
+            if o.byName then st := addBr st "opt-groupby-measurement"
+            -- a sibling (not on this node's chain) re-stamps the same point: this one must see the original
+            let restamps (g : From) := g.opts.truncate > 0 || g.opts.round > 0 || g.opts.star || !g.opts.dims.isEmpty || g.opts.byName
+            for j in [0:x.2.task.froms.length] do
+              match x.2.task.froms[j]? with
+              | some g =>
+                if !onChain x.2.task.froms (i + 1) i j && sinkGets x.2.task j p && restamps g && !restamps f && f.parent.isNone then
+                  st := addBr st "plain-sibling-of-restamping-from"
+              | none => pure ()
         | none => pure ()
       for f in x.2.task.froms do
         let b := matchBranch f p
@@ -198,27 +293,49 @@ def judge (_id : String) (lines : Array String) : Verdict := Id.run do
   for l in lines do
     let (opT, obs) := splitObs (tokens l)
     -- HTTP request / concurrent writers ↦ the WritePoints history they amount to
-    let mut opT := opT
-    let mut obs := obs
+    let mut opOver : Option Op := none
     match opT with
-    | ["hwrite", db, rp, _prec, ls] =>
+    | "hwrite" :: db :: rp :: prec :: ls :: rest =>
       let some db' := unesc db | return .badop l
       let some rp' := unesc rp | return .badop l
       let some ls := parseLines ls | return .badop l
-      let (status, _) := serveWriteLine db' rp' ls
+      let flags := rest.headD "-"
+      let enc := parseEnc flags
+      let prec' := if prec == "-" then "" else prec
+      let (status, mop) := serveWrite enc db' rp' prec' ls
       let want := if status == 204 then "ok" else s!"err:{status}"
-      st := addBr st (if ls.any (·.isNone) then "http-rejected-malformed-line" else if db' == "" then "http-rejected-no-db"
-                      else if rp' == "" then "http-accepted-no-rp" else "http-accepted")
+      let p' := if prec' == "" then "n" else prec'
+      let outOfRange := ls.any (fun x => match x with
+        | .point _ ts => (safeCalcTime ts p').isNone
+        | _ => false)
+      st := addBr st (if enc == .gzipBadHeader then "http-rejected-not-gzip" else if enc == .gzipTruncated then "http-rejected-gzip-truncated"
+                      else if ls.any (fun x => match x with | .bad => true | _ => false) then "http-rejected-malformed-line"
+                      else if outOfRange then "http-rejected-time-out-of-range"
+                      else if db' == "" then "http-rejected-no-db"
+                      else if rp' == "" then (if st.defaultRP == "" then "http-accepted-no-rp-no-default" else "http-accepted-no-rp-default-rp")
+                      else "http-accepted")
+      if status == 204 then
+        if enc == .gzip then st := addBr st "http-gzip-body"
+        st := addBr st s!"http-precision-{prec}"
+        if (flags.splitOn ",").contains "cons" then st := addBr st "http-consistency-param-ignored"
+        if ls.any (fun x => match x with | .skip => true | _ => false) then st := addBr st "http-comment-or-blank-line-skipped"
+        if ls.any (fun x => match x with | .point _ ts => ts == 2562048 | _ => false) then st := addBr st "http-large-stamp-in-range-under-this-precision"
       if obs != [want] && st.hung.isNone then
         st := { st with hung := some s!"hwrite: model {want} observed {" ".intercalate obs}" }
       -- the history follows what the implementation ANSWERED: an accepted request wrote its (well-formed) points, a rejected one nothing
       if obs == ["ok"] then
-        if ls.all (·.isNone) then continue
-        let pts := ",".intercalate ((ls.filterMap id).map (fun (r : RawPoint) =>
-          s!"{r.id}|{esc r.name}|{if r.pass.isEmpty then "-" else ";".intercalate (r.pass.map toString)}|0|%"))
-        opT := ["write", db, rp, pts]
+        match mop with
+        | some (.write d r pts) => if pts.isEmpty then continue else opOver := some (.write d r pts)
+        | _ =>
+          -- accepted although the model refuses: judge the sinks against the points of the well-formed lines
+          let pts := ls.filterMap (fun x => match x with
+            | .point r ts => some { r with pl := { r.pl with time := ts * precisionMult p' } }
+            | _ => none)
+          if pts.isEmpty then continue else opOver := some (.write db' rp' pts)
       else continue
     | ["cwrite", db, rp, ws] =>
+      let some db' := unesc db | return .badop l
+      let some rp' := unesc rp | return .badop l
       let some writers := (ws.splitOn "&").mapM parsePoints | return .badop l
       st := addBr st "concurrent-writers"
       if obs != ["ok"] then
@@ -231,9 +348,7 @@ def judge (_id : String) (lines : Array String) : Verdict := Id.run do
         let all := writers.flatten
         let merged := order.filterMap (fun i => all.find? (·.id == i))
         if writers.length ≥ 2 && merged.map (·.id) != all.map (·.id) then st := addBr st "concurrent-writers-interleaved"
-        let pts := ",".intercalate (merged.map (fun (r : RawPoint) =>
-          s!"{r.id}|{esc r.name}|{if r.pass.isEmpty then "-" else ";".intercalate (r.pass.map toString)}|0|%"))
-        opT := ["write", db, rp, pts]
+        opOver := some (.write db' rp' merged)
     | ["write", _, _, _] =>
       if st.drained then
         -- WritePoints after Drain: ErrTaskMasterClosed, nothing is written
@@ -258,16 +373,32 @@ def judge (_id : String) (lines : Array String) : Verdict := Id.run do
       let sp := renderIds (specDelivered st.defaultRP T i ops)
       let m := renderIds (st.model.delivered T i)
       if sp != "-" then st := addBr st "delivered-nonempty"
-      if obs != [sp] then
-        return .specfail "delivered-exactly-once-in-order" s!"task {esc T} from#{i}: spec {sp} observed {" ".intercalate obs}"
-      if obs != [m] then return .mismatch s!"task {esc T} from#{i}: model {m} observed {" ".intercalate obs}"
+      let obsPts := parseObsPts obs
+      let obsIds := if obsPts.isEmpty then "-" else ",".intercalate (obsPts.map (·.id))
+      if obsIds != sp then
+        return .specfail "delivered-exactly-once-in-order" s!"task {esc T} from#{i}: spec {sp} observed {obsIds}"
+      -- the recorded POINTS against the documented ones (spec clause from-options-exact), then against the model
+      let spPts := (specDeliveredPts st.defaultRP T i ops).map renderRec
+      match (obsPts.zip spPts).find? (fun z => z.1.text != z.2) with
+      | some z =>
+        return .specfail "from-options-exact" s!"task {esc T} from#{i}: point {z.1.id} differs in {diffPart z.1.text z.2}: documented {z.2} recorded {z.1.text}"
+      | none => pure ()
+      if obsIds != m then return .mismatch s!"task {esc T} from#{i}: model {m} observed {obsIds}"
+      let mPts := (st.model.deliveredPts T i).map renderRec
+      match (obsPts.zip mPts).find? (fun z => z.1.text != z.2) with
+      | some z => return .mismatch s!"task {esc T} from#{i}: point {z.1.id} differs in {diffPart z.1.text z.2}: model {z.2} recorded {z.1.text}"
+      | none => pure ()
+      -- cross-check: the harness' own comparison with the written point must agree with the spec's verdict
+      match obsPts.find? (fun o => !o.flags.isEmpty) with
+      | some o => return .mismatch s!"task {esc T} from#{i}: the spec accepts point {o.id} but the harness' own comparison flags it ({"!".intercalate o.flags}): {o.text}"
+      | none => pure ()
     | ["close"] =>
       if st.hung.isNone then st := { st with hung := some s!"TaskMaster.Close observed {" ".intercalate obs}" }
     | ["quiesce"] =>
       if let some h := st.hung then return .mismatch s!"implementation and model differ: {h}"
       if obs != ["0"] then return .mismatch s!"the harness timed out waiting for the pipeline: {" ".intercalate obs}"
     | _ =>
-      match parseOp opT with
+      match (match opOver with | some op => some op | none => parseOp opT) with
       | some op =>
         st := noteOp st op
         -- the bounded model with the capacity read from the source (theorem bounded_edges_never_block: = `step`, never blocked)
